@@ -277,6 +277,59 @@ func main(a, b int16) (int16, int32) {
 }`,
 }
 
+// programs in which one operator occurs with operand types that agree in some positions and differ in others
+// (index widths, selected widths, signedness, constants): anything that identifies a streamed circuit by less
+// than its complete typed instruction would reuse the wrong one
+var pgCacheTemplates = []string{
+	`package main
+func main(a [8]uint8, sel uint8) (uint8, uint8, uint8, uint8) {
+	var i uint2 = uint2(sel)
+	var j uint3 = uint3(sel >> 2)
+	var k uint1 = uint1(sel >> 5)
+	var b [8]uint8
+	for n := 0; n < 8; n++ {
+		b[n] = a[n] + 1
+	}
+	return a[i], b[j], a[k], a[i] + b[j]
+}`,
+	`package main
+func main(a [4]uint16, sel uint8) (uint16, uint16, uint8) {
+	var i uint1 = uint1(sel)
+	var j uint2 = uint2(sel >> 1)
+	var c [4]uint8
+	for n := 0; n < 4; n++ {
+		c[n] = uint8(a[n] >> 4)
+	}
+	return a[i], a[j], c[j] + c[i]
+}`,
+	`package main
+func main(a uint16, b uint16) (uint8, uint16, int8, bool) {
+	var x uint8 = uint8(a)
+	var y uint8 = uint8(b)
+	var p int8 = int8(a >> 8)
+	var q int8 = int8(b >> 8)
+	var r uint8
+	if a > b {
+		r = x
+	} else {
+		r = y
+	}
+	var s uint16
+	if x > y {
+		s = a
+	} else {
+		s = b
+	}
+	var t int8
+	if p > q {
+		t = p
+	} else {
+		t = q
+	}
+	return r, s, t, (p == -3) != (x == 3) || q == p
+}`,
+}
+
 // programs with one huge step circuit (more than 65536 circuit wires while all permanent ids are small)
 var pgWideTemplates = []string{
 	`package main
